@@ -9,6 +9,7 @@ def run(ctx):
     if ctx.replay:
         from checks import skiplist as slc
         slc.setlin(ctx, os.path.join(ctx.replay, "failing-trace.ndjson"), "replay", 1)
+        writers.fix_msg(ctx, None)
         return ctx.finish()
     T = ctx.thorough
     ctx.rule = ("M1: TLC exhausts NitroWriters.tla (writer paths at the grain of their atomic steps: lookup under a token, deadSn read, publish, "
